@@ -135,6 +135,15 @@ def compileLoop : List α → List (α × List α) → Except (CompileErr α) (L
     | some c => .error (.notFound c)
     | none => compileLoop (known ++ [d.1]) rest
 
+/-- the definition at which `compileLoop` fails and ALL its callees that are unknown at that moment (the handlers of a
+body are collected block-wise, so the real error may name any of them; `compileLoop` names the first in call order) -/
+def firstFailure : List α → List (α × List α) → Option (α × List α)
+  | _, [] => none
+  | known, d :: rest =>
+    match d.2.filter (fun c => c ∉ known) with
+    | [] => firstFailure (known ++ [d.1]) rest
+    | cs => some (d.1, cs)
+
 /-- what `ExplorerScriptSsbCompiler.compile` does with the macros of one file, as far as ordering is concerned;
 `ok l` = the names in `compiler_ctx.macros` afterwards -/
 def compileMacros (inp : Input α) : Except (CompileErr α) (List α) :=
